@@ -31,6 +31,8 @@ pub(crate) mod custom;
 #[cfg(not(wasm_browser))]
 mod ip;
 mod relay;
+#[cfg(iroh_verif)]
+pub(crate) use self::relay::actor_verif as relay_actor_verif;
 
 use custom::{CustomEndpoint, CustomSender, CustomTransport};
 
